@@ -109,12 +109,14 @@ impl ByteReader {
 
     pub uninterp spec fn pos(&self) -> int;
 
-    /// TRUSTED (std): seeking to an absolute offset sets the position (also beyond the end; reads there fail).
+    /// TRUSTED (std / OS): seeking to an absolute offset sets the position (also beyond the end; reads there fail);
+    /// an absolute seek to an offset inside an open regular file (or a Cursor) does not fail.
     #[verifier::external_body]
     pub fn seek(&mut self, to: SeekFrom) -> (r: Result<u64>)
         ensures
             final(self).content() == old(self).content(),
             r.is_ok() ==> (to matches SeekFrom::Start(o) ==> final(self).pos() == o),
+            (to matches SeekFrom::Start(o) && o <= old(self).content().len()) ==> r.is_ok(),
     {
         unimplemented!()
     }
